@@ -36,7 +36,7 @@ def simple_paths(n, arcs, s, t):
 
 def c10_reference(n, arcs):
     N = D.NAMES
-    g = D.build(n, arcs)
+    g = D.prepared(n, arcs)
     reach = closure(n, arcs)
     ix = {N[i]: i for i in range(n)}
     for x in range(n):
@@ -103,7 +103,7 @@ def dsep_paths(n, arcs, x, y, Z):
 
 def c11_reference(n, arcs):
     N = D.NAMES
-    g = D.build(n, arcs)
+    g = D.prepared(n, arcs)
     for x in range(n):
         for y in range(x + 1, n):
             oth = [v for v in range(n) if v not in (x, y)]
@@ -120,7 +120,7 @@ def c11_reference(n, arcs):
 
 def c19_reference(n, arcs):
     N = D.NAMES
-    g = D.build(n, arcs)
+    g = D.prepared(n, arcs)
     reach = closure(n, arcs)
     ix = {N[i]: i for i in range(n)}
     for s in range(n):
@@ -146,7 +146,7 @@ def c19_reference(n, arcs):
 
 def c20_reference(n, arcs):
     N = D.NAMES
-    g = D.build(n, arcs)
+    g = D.prepared(n, arcs)
     ix = {N[i]: i for i in range(n)}
     for a in range(n):
         pa = {x for x, y in arcs if y == a}
